@@ -322,7 +322,11 @@ def _(u):
 POMO = "rl4co/models/zoo/pomo/model.py"
 
 
+POMO_CALLS = {}
+
+
 def _pomo(u, phase, S, B, T, n_aug=None):
+    calls = POMO_CALLS
     total = S * B if n_aug is None else S * (n_aug * B)
     rew = u.tensor("policy_reward", (total,), "f")
     ll = u.tensor("policy_ll", (total,), "f")
@@ -331,7 +335,16 @@ def _pomo(u, phase, S, B, T, n_aug=None):
     td0 = SymTD({"locs": u.tensor("locs", (B, 3, 2), "f")}, (B,))
     env = u.ns(reset=lambda batch: td0, get_num_starts=lambda td: S)
     policy = lambda td, e, phase=None, num_starts=None: {"reward": rew, "log_likelihood": ll, "actions": acts}
-    obj = u.obj(POMO, "POMO", env=env, policy=policy, num_augment=8 if n_aug is None else n_aug, num_starts=S, augment=lambda td: td,
+    def augment(td):
+        calls.setdefault("augment_arg", td)
+        calls["augmented"] = SymTD(dict(td.data), td.batch_size) if isinstance(td, SymTD) else td
+        return calls["augmented"]
+
+    calls.clear()
+    calls["reset_out"] = td0
+    policy0 = policy
+    policy = lambda td, e, phase=None, num_starts=None: (calls.__setitem__("policy_arg", td), policy0(td, e, phase=phase, num_starts=num_starts))[1]
+    obj = u.obj(POMO, "POMO", env=env, policy=policy, num_augment=8 if n_aug is None else n_aug, num_starts=S, augment=augment,
                 baseline=u.obj(BL, "SharedBaseline"), advantage_scaler=u.obj(UT, "RewardScaler", scale=None),
                 log_metrics=lambda out, phase, dataloader_idx=None: {"_out": out})
     u.inline((RF, "REINFORCE.calculate_loss"), (BL, "SharedBaseline.eval"), (UT, "RewardScaler.__call__"))
@@ -373,6 +386,8 @@ def _(u):
     # witnesses: the argmax reductions the body itself creates (over starts at line `reward.max(dim=-1)`, over augmentations at `reward_.max(dim=1)`)
     am_start = [r for r in captured if r.kind == "argmax" and r.outer_rank == 2][0]
     am_aug = [r for r in captured if r.kind == "argmax" and r.outer_rank == 1][0]
+    # the augmentation acts on the RESET state (depot and customers together in `locs`), and the policy decodes its output
+    u.prove("pomo.augments-the-reset-state", AND(POMO_CALLS.get("augment_arg") is POMO_CALLS.get("reset_out"), POMO_CALLS.get("policy_arg") is POMO_CALLS.get("augmented")))
     same_tensor(u, "pomo.max_reward.shape", out["max_reward"], (B, A), lambda bb, ii: out["max_reward"].at(bb, ii))
     same_tensor(u, "pomo.best_multistart_actions.shape", out["best_multistart_actions"], (B, A, T), lambda bb, ii, tt: out["best_multistart_actions"].at(bb, ii, tt))
     same_tensor(u, "pomo.max_aug_reward.shape", out["max_aug_reward"], (B,), lambda bb: out["max_aug_reward"].at(bb))
